@@ -29,7 +29,7 @@ func Intrinsic(data []byte, creation bool) uint64 {
 
 // TxKinds lists the transaction classes DrawTx produces.
 var TxKinds = []string{"transfer", "transfer-new", "transfer-precompile", "store-set", "store-clear", "multistore", "multiclear", "emit",
-	"reverter", "oog", "invalid", "forward", "forward-nested", "creator", "create", "create-failing", "suicide", "recursor", "bouncer", "random-code", "call-then-fail", "blockhash", "blockhash", "call-loop", "call-loop", "touch-created", "touch-created"}
+	"reverter", "oog", "invalid", "forward", "forward-nested", "creator", "create", "create-failing", "suicide", "recursor", "bouncer", "random-code", "call-then-fail", "blockhash", "blockhash", "call-loop", "call-loop", "touch-created", "touch-created", "codesize", "codesize"}
 
 // TxCtx is what the transaction generator may look at.
 type TxCtx struct {
@@ -232,6 +232,15 @@ func DrawTx(t *rapid.T, c TxCtx) (*types.Transaction, string) {
 		}
 		to, value = addr(rapid.SampledFrom(created).Draw(t, "createdtarget")), smallValue()
 		data = Cat(Word(uint64(rapid.IntRange(0, 3).Draw(t, "slot"))), Word(uint64(rapid.IntRange(0, 2).Draw(t, "val"))))
+		extra += 60000
+	case "codesize":
+		// what EXTCODESIZE/EXTCODECOPY say about an address a sender deploys (or may deploy, differently, on another branch) reaches the state
+		kk := rapid.SampledFrom(keys).Draw(t, "deployer")
+		tgt := crypto.CreateAddress(kk.Addr, uint64(rapid.IntRange(0, 5).Draw(t, "deploynonce")))
+		if rapid.IntRange(0, 4).Draw(t, "zoocode") == 0 {
+			tgt = rapid.SampledFrom([]common.Address{AddrStore, AddrEmit, AddrEmptyAcct, fresh[0]}).Draw(t, "sizetarget")
+		}
+		to, data = addr(AddrCodeSize), WordAddr(tgt)
 		extra += 60000
 	case "recursor":
 		to = addr(AddrRecursor)
